@@ -237,8 +237,15 @@ def refined(ctx, rng, idx):
 def morphed(ctx, rng, idx):
     n = int(rng.choice([1, 2, int(rng.integers(1, 201))]))
     L = float(10 ** rng.uniform(-2, 2)); x0 = float(rng.choice([0.0, np.round(rng.uniform(-5, 5), 3)]))
-    k = idx % 4
-    if k == 0:
+    k = idx % 5
+    if k == 4:
+        # a morphing that returns INTEGER-typed positions (faces at whole numbers of metres): squares or multiples of the face index
+        o = int(rng.integers(-5, 6)); mlt = int(rng.integers(1, 4)); sq = bool(rng.random() < 0.5)
+        def morph(x, n=n, L=L, x0=x0):
+            j = np.rint((np.asarray(x, float) - x0) / L * n).astype(np.int64)
+            return (j * j + mlt * j if sq else mlt * j) + o
+        d = "integer-typed faces %s + %d" % ("j^2 + %d j" % mlt if sq else "%d j" % mlt, o)
+    elif k == 0:
         s, o = float(rng.uniform(0.1, 10)), float(rng.uniform(-5, 5)); morph = lambda x: s * x + o; d = "affine %g x + %g" % (s, o)
     elif k == 1:
         a = float(rng.uniform(0, 0.95)); morph = lambda x: x + a * L / (2 * np.pi) * np.sin(2 * np.pi * (x - x0) / L); d = "sinusoidal a=%g" % a
